@@ -23,6 +23,7 @@ class Gen:
 
     def __init__(self, rng: random.Random, full=True, depth=2, accs=None, launch_vals=True, prethread=False, carried=0.0):
         self.const_bounds = 0.3  # probability that a loop has constant bounds
+        self.nests = True  # hide calls in setup-free control flow
         self.between = 0.25  # probability of arithmetic between a launch and its await
         self.carried = carried  # probability that a loop carries a data value / an if yields a data value
         self.r = rng
@@ -53,10 +54,14 @@ class Gen:
         s, t = self.fresh("s"), self.fresh("t")
         params = ", ".join(f'"{f}" = {self.r.choice(vals)} : i32' for f in fs)
         frm = ""
-        if self.prethread and cur.get(acc) and self.r.random() < 0.5:
-            frm = f" from {cur[acc]}"
+        hist = cur.setdefault("_hist_" + acc, [])
+        if self.prethread and hist and self.r.random() < 0.6:
+            # pre-existing threading: mostly the real predecessor, sometimes a STALE link to an older state of the accelerator
+            # (the tracer has to re-link every setup to the setup that really precedes it)
+            frm = f" from {self.r.choice(hist) if self.r.random() < 0.4 else hist[-1]}"
         out = [f'{ind}{s} = accfg.setup "{acc}"{frm} to ({params}) : {st_ty(acc)}']
         cur[acc] = s
+        hist.append(s)
         nl = 1 if self.r.random() < 0.8 else 2
         for _ in range(nl):
             if self.launch_vals:
@@ -87,9 +92,14 @@ class Gen:
                 op = self.r.choice(["addi", "addi", "muli", "subi"])
                 out.append(f"{ind}{v} = arith.{op} {a}, {b} : i32")
                 vals.append(v)
+            elif k < 0.58 and self.nests:
+                out += self.effect_nest(ind, self.r.randint(1, 3))
+                for _k in [k for k in cur if not k.startswith('_hist_')]:
+                    del cur[_k]
             elif k < 0.61:
                 out.append(f"{ind}func.call @g() : () -> ()")
-                cur.clear()
+                for _k in [k for k in cur if not k.startswith('_hist_')]:
+                    del cur[_k]
             elif k < 0.66:
                 out.append(f'{ind}func.call @g() {{"accfg.effects" = #accfg.effects<none>}} : () -> ()')
             elif k < 0.82 and depth > 0:
@@ -111,7 +121,8 @@ class Gen:
                     out.append(f"{ind}}} else {{")
                     out += self.block(vals, depth - 1, ind + "  ", self.r.randint(0, 2), {})
                     out.append(f"{ind}}}")
-                cur.clear()
+                for _k in [k for k in cur if not k.startswith('_hist_')]:
+                    del cur[_k]
             elif depth > 0:
                 i, ii = self.fresh("i"), self.fresh()
                 lbn, ubn, stn = self.loop_bounds()
@@ -140,8 +151,24 @@ class Gen:
                     out.append(f"{ind}  {ii} = arith.index_cast {i} : index to i32")
                     out += self.block(vals + [ii], depth - 1, ind + "  ", self.r.randint(1, 4), {})
                     out.append(f"{ind}}}")
-                cur.clear()
+                for _k in [k for k in cur if not k.startswith('_hist_')]:
+                    del cur[_k]
         return out
+
+    def effect_nest(self, ind, depth):
+        """control flow WITHOUT setups that hides one unannotated call at a random leaf (then/else branch, loop body, any depth)"""
+        if depth == 0:
+            return [f"{ind}func.call @g() : () -> ()"]
+        k = self.r.random()
+        inner = self.effect_nest(ind + "  ", depth - 1)
+        if k < 0.5:
+            c = self.r.choice(["%c0", "%c1"])
+            if self.r.random() < 0.5:
+                return [f"{ind}scf.if {c} {{"] + inner + [f"{ind}}} else {{", f"{ind}}}"]
+            return [f"{ind}scf.if {c} {{", f"{ind}}} else {{"] + inner + [f"{ind}}}"]
+        lbn, ubn, stn = self.loop_bounds()
+        i = self.fresh("i")
+        return [f"{ind}scf.for {i} = {lbn} to {ubn} step {stn} {{"] + inner + [f"{ind}}}"]
 
     def program(self):
         args = [f"%x{i}" for i in range(NARGS)]
@@ -402,6 +429,21 @@ class Conv:
         if isinstance(op, (scf.YieldOp, func.ReturnOp)):
             return None
         raise Unsupported(op.name)
+
+    def effect_nest(self, ind, depth):
+        """control flow WITHOUT setups that hides one unannotated call at a random leaf (then/else branch, loop body, any depth)"""
+        if depth == 0:
+            return [f"{ind}func.call @g() : () -> ()"]
+        k = self.r.random()
+        inner = self.effect_nest(ind + "  ", depth - 1)
+        if k < 0.5:
+            c = self.r.choice(["%c0", "%c1"])
+            if self.r.random() < 0.5:
+                return [f"{ind}scf.if {c} {{"] + inner + [f"{ind}}} else {{", f"{ind}}}"]
+            return [f"{ind}scf.if {c} {{", f"{ind}}} else {{"] + inner + [f"{ind}}}"]
+        lbn, ubn, stn = self.loop_bounds()
+        i = self.fresh("i")
+        return [f"{ind}scf.for {i} = {lbn} to {ubn} step {stn} {{"] + inner + [f"{ind}}}"]
 
     def program(self):
         nf = {}
